@@ -52,6 +52,10 @@ BUILTIN_EXC = {"ValueError", "TypeError", "IndexError", "KeyError", "AssertionEr
                "RuntimeError", "StopIteration", "AttributeError", "Exception", "ZeroDivisionError"}
 
 
+import math as _math
+EXT_CONSTS = {"numpy.pi": _math.pi, "math.pi": _math.pi, "numpy.inf": float("inf"), "math.inf": float("inf")}
+
+
 class Path:
     def __init__(self, decisions=(), timeout_ms=4000):
         self.decisions = list(decisions)
@@ -288,6 +292,8 @@ class Interp:
         last = dotted.split(".")[-1]
         if last in BUILTIN_EXC:
             return ExcVal(last)
+        if dotted in EXT_CONSTS:
+            return EXT_CONSTS[dotted]
         return ExternalVal(dotted)
 
     # ------------------------------------------------------------------ calls
@@ -319,6 +325,8 @@ class Interp:
             m = self.repo.find_method(f.cls, "__call__")
             if m is not None:
                 return self.call_func(FuncVal(m, f, cls_ctx=m.cls), args, kwargs)
+        if isinstance(f, Opaque) and "__vf_call__" in f.__dict__:
+            return f.__dict__["__vf_call__"](*args, **kwargs)
         if callable(f) and not is_z3(f):
             return f(*args, **kwargs)
         raise Unsupported(f"call of {f!r}")
